@@ -11,14 +11,22 @@ TEXTS = [b"", b"v", b"Vendor <x> & Co", "Überall ✓ 日本語 😀".encode(), 
 NAMES = [b"a.b", b"a.b.c", b"org.example", b"x.y", "ü.x".encode(), b"org.varlink.service", b"", b"a", b"A.B", b"a.b "]
 
 
-def gen_history(rng):
+CALL_METHODS = [b"M", b"Ping", b"GetInfo", b""]
+
+
+def gen_history(rng, p_call=0.12):
     ident = [rng.choice(TEXTS) for _ in range(4)]
     ops = ["svc %s %s %s %s %s" % (tuple(S.hx(x) for x in ident) + (S.hx(C.svc_descr()),))]
     hist = []
     listening = False
     for _ in range(rng.choice([3, 6, 10, 16])):
         r = rng.random()
-        if r < 0.4:
+        if rng.random() < p_call:
+            # the same method strings come back before and after registrations: routing must follow the registry as it is now
+            m = rng.choice(NAMES[:5] + [b"nope"]) + b"." + rng.choice(CALL_METHODS)
+            ops.append("call %s" % S.hx(m))
+            hist.append(("call", m))
+        elif r < 0.4:
             name, descr = rng.choice(NAMES), rng.choice(TEXTS + [b"interface a.b\nmethod M() -> ()"])
             ops.append("reg %s %s" % (S.hx(name), S.hx(descr)))
             hist.append(("reg", name, descr))
@@ -68,6 +76,16 @@ def spec(ident, hist, results):
                 wantc = ["S" + S.hx(x) for x in ident] + ["[" + ",".join(S.hx(n) for n in names) + "]"]
                 if got != wantc:
                     return "client GetInfo returned %s, expected %s" % (got, wantc)
+        elif op[0] == "call":
+            m = op[1]
+            if not C.utf8(m):
+                continue
+            fr = bytes.fromhex(res.split(" ")[1])
+            obj = C.frame_obj(fr[:-1]) if fr.endswith(b"\x00") else "no-frame"
+            rt = S.route_py(names[1:], m)
+            want = S.std_reply("N", rt[2].decode()) if rt[0] == "dispatch" else S.std_reply("I", rt[1].decode()) if rt[0] == "nointerface" else None
+            if want is not None and obj != want:
+                return "call %r with %d interfaces registered replied %r, expected %r" % (m, len(names) - 1, fr[:300], want)
         elif op[0] == "descr":
             name = op[1]
             f = res.split(" ")
@@ -111,7 +129,7 @@ def resolver_case(rng):
 def main(pid, argv):
     ck = V.Check(pid, argv)
     ck.rule = ("histories over {register(name, description), duplicate register, listen, register while listening, shutdown, register again, GetInfo, "
-               "GetInterfaceDescription(name)} on one real Service object with identity strings and descriptions from a pool (empty, unicode, control characters, "
+               "GetInterfaceDescription(name), call(method string) before and after registrations} on one real Service object with identity strings and descriptions from a pool (empty, unicode, control characters, "
                "quotes, long, invalid UTF-8); replies observed through HandleMessage directly and, while listening, through the client helpers; plus Resolver.GetInfo / "
                "Resolver.Resolve against a scripted resolver service. distinct = distinct histories; non-trivial = history with a refused registration or a description query")
     ck.assumptions = ["interface names are non-empty (an interface registered under the empty name is listed but not describable: recorded, not claimed)",
